@@ -20,18 +20,11 @@ class Driver(ChanDriver):
     def corpus(self):
         F = lambda n, num=0, s=b'': (n, num, s)
         return [
-            # F11: a queued Return error masks the broker's close reason for ever
+            # F11 (fixed): a queued Return error used to mask the broker's close reason for ever
             (1, [(1, ('idle',), [[(1, F('NReturn', 312)), (1, F('NHeader', 0))]]),
                  (1, ('idle',), [[(1, F('NChClose', 404))]]),
                  (1, ('ack',), []), (1, ('ack',), []), (1, ('ack',), [])]),
+            (1, [(1, ('idle',), [[(1, F('NReturn', 312)), (1, F('NHeader', 0)), (1, F('NReturn', 313)), (1, F('NHeader', 0))]]),
+                 (1, ('idle',), [[(1, F('NChClose', 404))]]),
+                 (1, ('ack',), []), (1, ('ack',), []), (1, ('ack',), []), (1, ('ack',), [])]),
         ]
-
-    def fingerprint(self, case):
-        """A Return error still queued when the broker closes the channel."""
-        steps = case['meta']['steps']
-        for c in set(s[0] for s in steps):
-            fr = [f[0] for s in steps for t in s[2] for cc, f in t if cc == c]
-            if 'NReturn' in fr and 'NChClose' in fr and \
-                    fr.index('NReturn') < len(fr) - 1 - fr[::-1].index('NChClose'):
-                return 'queued-error-masks-close'
-        return None
